@@ -66,6 +66,8 @@ func (s step) String() string {
 	switch s.Op {
 	case "W", "P", "Bsid":
 		return s.Op + "(" + s.B.String() + ")"
+	case "WPC":
+		return "WPC(Write+Flush " + s.B.String() + " || the peer closes the stream before it acknowledges the packet)"
 	case "R", "SRB":
 		return fmt.Sprintf("%s(%d)", s.Op, s.K)
 	case "WL":
@@ -94,11 +96,11 @@ type scenario struct {
 	OpenReply string // library opens: result | error:<type>/<cond> | none
 	// library opens, peer accepts: the peer's first data packet (this many
 	// bytes, 0 = none) is sent in the same write as its acknowledgement
-	Early int
-	Listen    bool   // peer opens: is there a listener
-	Steps     []step
-	Final     string // C | PC : how the stream is closed if the steps did not
-	DrainK    int    // read size of the final drain
+	Early  int
+	Listen bool // peer opens: is there a listener
+	Steps  []step
+	Final  string // C | PC : how the stream is closed if the steps did not
+	DrainK int    // read size of the final drain
 }
 
 func (sc *scenario) String() string {
@@ -241,6 +243,9 @@ func genScenario(t *rapid.T) *scenario {
 			}
 			if i > 0 && i >= n-4 {
 				ops = append(ops, "C", "PC")
+				if dir != "recv" && sc.Carrier == "iq" {
+					ops = append(ops, "WPC")
+				}
 			}
 		} else {
 			ops = append(ops, "P", "Bsid")
@@ -296,6 +301,10 @@ func genScenario(t *rapid.T) *scenario {
 				st.Pk = append(st.Pk, pk("pp"))
 				qlen += st.Pk[j].N
 			}
+		case "WPC":
+			st.B = genBlob(t, "w", 1+rapid.IntRange(0, be-1).Draw(t, "wpcn"))
+			open = false
+			pending = false
 		case "C", "PC":
 			open = false
 			pending = false
@@ -355,8 +364,13 @@ type runner struct {
 	peerCloseID    string
 	ackedPeerClose bool
 	writeFailed    bool
-	sendErr        bool
-	wrapCheck      bool
+	// a Write was still in progress when the peer closed the stream: the rest
+	// of its packets may follow the acknowledgement (they are refused and the
+	// Write fails); nothing is promised for them
+	inflightAtClose bool
+	afterCloseFeed  func() // run once right after the peer's close request was fed
+	sendErr         bool
+	wrapCheck       bool
 
 	// receive direction (peer -> library)
 	q        []byte // accepted and not yet read
@@ -569,7 +583,7 @@ func (r *runner) scanSent() {
 			if r.sawClose {
 				r.failf("data packet written after the library's close request: %s", e)
 			}
-			if r.ackedPeerClose {
+			if r.ackedPeerClose && !r.inflightAtClose {
 				r.failf("data packet written after the library had acknowledged the peer's close request (the peer has forgotten the stream by then: the bytes are lost): %s", e)
 			}
 			raw, err := base64.StdEncoding.Strict().DecodeString(e.b64)
@@ -1044,6 +1058,10 @@ func (r *runner) peerClose() {
 	atomic.AddInt32(&r.stim, 1)
 	r.tracef("peer: close id=%s sid=%q", id, r.sid)
 	r.sv.Feed(closeIQ(id, r.sid))
+	if f := r.afterCloseFeed; f != nil {
+		r.afterCloseFeed = nil
+		f()
+	}
 	e, _ := r.p.waitEvent(from, func(e *event) bool { return (e.kind == "result" || e.kind == "error") && e.id == id }, opTimeout)
 	if e == nil {
 		r.checkPanics()
@@ -1140,6 +1158,57 @@ func (r *runner) step(st step) {
 		r.scanSent()
 		r.settle(false)
 		r.class("parallel")
+	case "WPC":
+		if r.closed != "" || r.sc.Carrier != "iq" {
+			return
+		}
+		// a packet is on its way (Write+Flush wait for its acknowledgement) when
+		// the peer closes the stream; the acknowledgement arrives right behind
+		// the close request
+		data := st.B.bytes()
+		type wr struct {
+			n    int
+			err  error
+			ferr error
+		}
+		conn := r.conn
+		r.p.setPolicy("", "none", "")
+		from := r.p.count()
+		r.written = append(r.written, data...)
+		r.writeFailed = true // (what was not delivered by the time of the close is lost: expected here)
+		r.inflightAtClose = true
+		wch := spawn(r, func() wr {
+			n, err := conn.Write(data)
+			var ferr error
+			if err == nil {
+				ferr = conn.Flush()
+			}
+			return wr{n, err, ferr}
+		})
+		e, _ := r.p.waitEvent(from, func(e *event) bool { return e.kind == "data" }, opTimeout)
+		if e == nil {
+			r.checkPanics()
+			r.sessionDead("the data packet of a flushed write")
+			r.inconclusive("timeout waiting for the data packet of a flushed write")
+		}
+		dataID := e.id
+		// (the peer, having closed the stream, may well refuse the packet that
+		// crossed its request; everything that follows it certainly is refused)
+		how := "result"
+		if st.B.Seed%2 == 1 {
+			how = "error:cancel/item-not-found"
+		}
+		r.afterCloseFeed = func() {
+			r.p.setPolicy("", "error:cancel/item-not-found", "")
+			r.p.reply(dataID, how)
+		}
+		r.peerClose()
+		w := await(r, wch, fmt.Sprintf("Write(%d bytes)+Flush overtaken by the peer's close request (the packet's acknowledgement arrived right behind it)", len(data)), "")
+		r.tracef("lib : Write+Flush overtaken by the peer's close = (%d, %s, %s)", w.n, errStr(w.err), errStr(w.ferr))
+		r.nWrites++
+		r.scanSent()
+		r.settle(false)
+		r.class("close:peer-overtakes-acknowledgement")
 	case "C":
 		if r.closed != "" {
 			return
